@@ -9,6 +9,9 @@ package main
 import (
 	"bytes"
 	"fmt"
+	"io"
+	"runtime"
+	"sync/atomic"
 
 	"github.com/CrowdStrike/csproto"
 	"google.golang.org/protobuf/encoding/protowire"
@@ -119,4 +122,105 @@ func fallbackAfterFailedDecode(r *ev.Run, alpha []fieldEnc) int64 {
 		}
 	}
 	return n
+}
+
+// mixedConsumption: three consecutive fields, each consumed in one of four ways - Skip; the widest typed decoder of its
+// wire type; DecodeTag, a no-op Seek(0, SeekCurrent), Skip; DecodeTag, typed decode, Seek back behind the key, Skip (a
+// "peek") - all 64 combinations x every ordered pair of alphabet fields (padded keys included) followed by a one-byte-key
+// field x both modes. What Skip knows about "the key just read" must be right whatever was done to the fields before.
+func mixedConsumption(r *ev.Run, alpha []fieldEnc) int64 {
+	var n atomic.Int64
+	third := alpha[0]
+	ev.Parallel(len(alpha), runtime.NumCPU(), func(ai int) {
+		var cnt int64
+		for bi := range alpha {
+			fs := [3]fieldEnc{alpha[ai], alpha[bi], third}
+			buf := append(append(append([]byte{}, fs[0].b...), fs[1].b...), fs[2].b...)
+			for mask := 0; mask < 64; mask++ {
+				for _, m := range modes {
+					cnt++
+					msg, cls := func() (msg, cls string) {
+						defer func() {
+							if p := recover(); p != nil {
+								msg, cls = fmt.Sprintf("panic: %v", p), "panic"
+							}
+						}()
+						d := csproto.NewDecoder(append([]byte{}, buf...))
+						d.SetMode(m)
+						start := 0
+						for i, f := range fs {
+							act := (mask >> (2 * i)) & 3
+							end := start + len(f.b)
+							gt, gw, err := d.DecodeTag()
+							if err != nil || gt != f.tag || int(gw) != f.wt {
+								return fmt.Sprintf("field %d: DecodeTag (%d,%d) %v", i, gt, gw, err), "tag"
+							}
+							afterKey := d.Offset()
+							typed := func() error {
+								var err error
+								switch f.wt {
+								case refwire.Varint:
+									_, err = d.DecodeUInt64()
+								case refwire.Fixed64:
+									_, err = d.DecodeFixed64()
+								case refwire.Fixed32:
+									_, err = d.DecodeFixed32()
+								default:
+									_, err = d.DecodeBytes()
+								}
+								return err
+							}
+							skip := func(how string) (string, string) {
+								raw, err := d.Skip(gt, gw)
+								if err != nil {
+									return fmt.Sprintf("field %d (%s): Skip: %v", i, how, err), "skip-error"
+								}
+								if !bytes.Equal(raw, f.b) {
+									return fmt.Sprintf("field %d (%s): Skip returned %x, the field is %x", i, how, raw, f.b), "raw-mismatch"
+								}
+								return "", ""
+							}
+							switch act {
+							case 0:
+								if m, c := skip("Skip"); m != "" {
+									return m, c
+								}
+							case 1:
+								if err := typed(); err != nil {
+									return fmt.Sprintf("field %d: typed decode: %v", i, err), "typed-error"
+								}
+							case 2:
+								if _, err := d.Seek(0, io.SeekCurrent); err != nil {
+									return fmt.Sprintf("field %d: Seek(0, current): %v", i, err), "seek"
+								}
+								if m, c := skip("after a no-op Seek"); m != "" {
+									return m, c
+								}
+							default:
+								if err := typed(); err != nil {
+									return fmt.Sprintf("field %d: typed decode: %v", i, err), "typed-error"
+								}
+								if _, err := d.Seek(int64(afterKey), io.SeekStart); err != nil {
+									return fmt.Sprintf("field %d: Seek back: %v", i, err), "seek"
+								}
+								if m, c := skip("after peeking at the value and seeking back"); m != "" {
+									return m, c
+								}
+							}
+							if d.Offset() != end {
+								return fmt.Sprintf("field %d: cursor %d, the next field starts at %d", i, d.Offset(), end), "cursor"
+							}
+							start = end
+						}
+						return "", ""
+					}()
+					if msg != "" {
+						r.Fail("mixed-consumption/"+cls, fmt.Sprintf("mixed/%s,%s/mask=%d/%s", fs[0].desc, fs[1].desc, mask, m), info{Kind: "skip", Ref: fmt.Sprintf("%x", buf[:min(len(buf), 64)]), Mode: m.String(), Msg: msg, Val: fmt.Sprintf("%s | %s | %s ; actions (2 bits per field: 0 Skip, 1 typed, 2 no-op Seek then Skip, 3 peek then Skip) = %d", fs[0].desc, fs[1].desc, fs[2].desc, mask)})
+					}
+				}
+			}
+		}
+		n.Add(cnt)
+	})
+	return n.Load()
 }
